@@ -44,8 +44,8 @@ def gen(run):
         for rd in ("cursor", "strict"):
             yield P.case_dense(rd, P.DEFAULT_MAX, None, b"".join(lay)), "seed-layouts"
     yield from P.gap_lattice(rng)
-    yield from P.rewrite_cases(rng, 600 if quick else 12000)
-    yield from P.tree_mutations(rng, 100 if quick else 3000)
+    yield from P.rewrite_cases(rng, 600 if quick else 60000)
+    yield from P.tree_mutations(rng, 100 if quick else 15000)
 
 
 fam.make(globals(), "C04", ["C04"], gen)
